@@ -250,6 +250,20 @@ func Main(prop string) {
 			src := p.Source(Style{})
 			out.Case("bytecode=2 "+p.Prefix(), lr.ListingF1(src)+"\t"+esc(src), p.Size() >= 3, "stream:bytecode-listing-f1")
 		}
+		// function bodies (buildSexpFun): (defn g [params] F1-forms..) without any reference to g
+		for i := 0; i < nbc/5; i++ {
+			var ps []string
+			for k := rng.Intn(4); k > 0; k-- {
+				ps = append(ps, []string{"x", "y", "f", "a"}[rng.Intn(4)])
+			}
+			var body []*Node
+			for k := 1 + rng.Intn(3); k > 0; k-- {
+				body = append(body, GenF1(rng, 1+rng.Intn(4), nil))
+			}
+			p := &Program{Forms: []*Node{Defn("g", ps, "", body...)}}
+			src := p.Source(Style{})
+			out.Case("bytecode=3 "+p.Prefix(), lr.ListingFn(src, "g")+"\t"+esc(src), true, "stream:bytecode-listing-fn")
+		}
 	}
 	out.Extra["interpreters_created"] = r.Recycled
 	out.Close(a.Stats)
